@@ -1,7 +1,7 @@
 (* C19 — property theorems only. *)
 From Coq Require Import List ZArith Bool.
 Import ListNotations.
-From LinDBV.C19 Require Import Model Proofs.
+From LinDBV.C19 Require Import Model Proofs Leaf.
 
 (* For every stage tree (fan-out, depth, sync/async mix), every assignment of outcomes
    {ok, error, panic} and every schedule (list of thread indexes, any length):
@@ -30,3 +30,18 @@ Theorem C19_drain_is_a_schedule :
   forall root fuel, exists sched, drain fuel (init root) = run root sched.
 Proof. exact drain_is_run. Qed.
 Print Assumptions C19_drain_is_a_schedule.
+
+(* The leaf's handling of a task request (refused before a pipeline exists, or answered by the pipeline's completion
+   callback): for every request and every schedule of its pipeline there are never two responses, and once the work is done
+   there is exactly one, carrying an error iff the request was refused or a stage failed other than with "not found". *)
+Theorem C19_one_response_per_request : forall f sched,
+  (length (responses false f sched) <= 1)%nat /\
+  (quiescent f sched -> responses false f sched = [succeeds f]).
+Proof. exact one_response. Qed.
+Print Assumptions C19_one_response_per_request.
+
+(* If the processor also returned the pipeline's error to the handler, a failing request would be answered twice. *)
+Theorem C19_returning_the_pipeline_error_refuted :
+  exists f sched, quiescent f sched /\ length (responses true f sched) = 2%nat.
+Proof. exact returning_the_pipeline_error_refuted. Qed.
+Print Assumptions C19_returning_the_pipeline_error_refuted.
